@@ -23,6 +23,8 @@ BOUNDS = {
              "numpy.float64/float32/int64 scalars and float64 ndarrays from a concrete set (with concrete amounts), symbolic object-ndarray; containers of length 0 and 2" % XS,
     "thorough": "same with container lengths 0..3 and every (x, k kind, operator) combination",
 }
+BOUNDS_ALSO = '; also: x with a captioned unknown quantity (Scalar, Array, FixedArray), integer-dtype numpy storage (concrete amounts), k kinds numpy uint8/uint64/int16, 0-d ndarray, python 0.25'
+BOUNDS = {k_: v_ + BOUNDS_ALSO for k_, v_ in BOUNDS.items()}
 ASSUMPTIONS = ["A-FP", "A-NP", "numpy scalars/float64 ndarrays as k are concrete (enumerated), the solver quantifies over the amounts and python-float k only",
                "ndarray k is claimed for Array/FixedArray x (the reflected Array operators support it); Scalar with ndarray k is not part of the claim"]
 CHUNK = 20
